@@ -5,5 +5,5 @@ D=$(realpath $1); P=$2; B=${3:-40}; T=${4:-quick}
 cd /repo && git diff --quiet || { echo "/repo not clean"; exit 9; }
 git -C /repo apply $D/patch.diff || { echo "patch does not apply"; exit 8; }
 trap 'git -C /repo checkout -- . ; git -C /repo clean -fdq' EXIT
-cd /verif && VERIF_BUDGET_S=$B ./check $P $T 2>&1 | cut -c1-400 | tail -12
+cd /verif && VERIF_BUDGET_S=$B ./check $P $T 2>&1 | cut -c1-400 | tail -12 | tr -cd "[:print:]\n"
 echo "check-exit=${PIPESTATUS[0]}"
